@@ -2,6 +2,7 @@ package c12
 
 import (
 	"fmt"
+	"strings"
 	"testing"
 	"time"
 
@@ -20,21 +21,22 @@ type Case struct {
 
 func TestMain(m *testing.M) {
 	h.Setup("C12",
-		"rapid state machine: 4 shared Regexps drawn from a pool of 10 (stack limit 65 - not reachable by doubling -, balancing groups, bool-only eligible program, backreference, stack limit 64, 30 ms timeout on a catastrophic pattern, RightToLeft, replacement cache of 2 entries, IgnoreCase lookbehind, Multiline) and histories of about 30 actions (rapid's default step count; a probe action issues one call per shared Regexp; one burst action per history issues Replace with more distinct replacements than the cache holds and then the latest ones again) over 13 entry points with inputs that match, fail, hit the stack limit or time out, sized 0-60 runes or padded across the pooled-buffer classes (about 1K / 4K / 16K runes), and replacements from a set of 18; after every action the result (canonical match / output / error class) must equal the same call on a Regexp compiled fresh for that call, and a fixed probe call on every shared Regexp is re-checked every few steps; one evaluation = one call in a history; non-trivial = a call on a Regexp whose earlier history contains a dirtying predecessor (bool call on the bool-only pattern, balancing match, error return, or a larger pooled input before a smaller one); distinct = hash of (history prefix)",
+		"rapid state machine: 4 shared Regexps drawn from a pool of 11 (stack limit 65 - not reachable by doubling -, balancing groups, bool-only eligible program, backreference, stack limit 64, 30 ms timeout on a catastrophic pattern, RightToLeft, replacement cache of 2 entries, IgnoreCase lookbehind, Multiline) and histories of about 30 actions (rapid's default step count; a probe action issues one call per shared Regexp; one burst action per history issues Replace with more distinct replacements than the cache holds and then the latest ones again) over 13 entry points with inputs that match, fail, hit the stack limit or time out, sized 0-60 runes or padded across the pooled-buffer classes (about 1K / 4K / 16K runes), and replacements from a set of 18; after every action the result (canonical match / output / error class) must equal the same call on a Regexp compiled fresh for that call, and a fixed probe call on every shared Regexp is re-checked every few steps; one evaluation = one call in a history; non-trivial = a call on a Regexp whose earlier history contains a dirtying predecessor (bool call on the bool-only pattern, balancing match, error return, or a larger pooled input before a smaller one); distinct = hash of (history prefix)",
 		map[string]float64{"after-dirtying": 0.4, "error-return": 0.01, "large-input": 0.05, "replacement": 0.03},
 		"a disagreement that involves a timeout is re-decided with both timeouts stretched x1, x4, x16 and reported only if it persists at every scale (work close to the timeout is a coin flip on either side)")
 	h.Main(m)
 }
 
 var targeted = map[string][]string{
-	"stack64":   {"ababababababababababababababababababababababababababababc", "abababababababababababababababababababababababababababababab"},
-	"timeout":   {"aaaaaaaaaaaaaaaaaaaaaaaaaaaaaaaaaaaaaab", "aaa"},
-	"balancing": {"(()())", "(()", "())(", "((((((((((((((((((((((((((((((((((((((((x))))))))))))))))))))))))))))))))))))))))"},
-	"backref":   {"ab ab", "hello hello world"},
-	"quickcode": {"ac", "abc", "1x"},
-	"cache2":    {"a1 b2 c3 d4"},
-	"stack65":   {"ababababababababababababc", "abababababababababababababc", "abababababababababababababc", "ababababababababababababababc", "ababababababababababababababababababababababababababababababababababababababababc"},
-	"rtl":       {"12a 345b"},
+	"stack64":       {"ababababababababababababababababababababababababababababc", "abababababababababababababababababababababababababababababab"},
+	"timeout":       {"aaaaaaaaaaaaaaaaaaaaaaaaaaaaaaaaaaaaaab", "aaa"},
+	"balancing":     {"(()())", "(()", "())(", "((((((((((((((((((((((((((((((((((((((((x))))))))))))))))))))))))))))))))))))))))"},
+	"backref":       {"ab ab", "hello hello world"},
+	"quickcode":     {"ac", "abc", "1x"},
+	"cache2":        {"a1 b2 c3 d4"},
+	"lookbehind100": {"!" + strings.Repeat("ab", 400), "!" + strings.Repeat("ab", 60), "ab", "ab", "zab", "!ab"},
+	"stack65":       {"ababababababababababababc", "abababababababababababababc", "abababababababababababababc", "ababababababababababababababc", "ababababababababababababababababababababababababababababababababababababababababc"},
+	"rtl":           {"12a 345b"},
 }
 
 func genCall(t *rapid.T, specs []int) calls.Call {
@@ -105,7 +107,7 @@ func runHistory(c Case, upTo int) error {
 func TestProp(t *testing.T) {
 	rapid.Check(t, func(t *rapid.T) {
 		var c Case
-		perm := rapid.Permutation([]int{0, 1, 2, 3, 4, 5, 6, 7, 8, 9}).Draw(t, "specs")
+		perm := rapid.Permutation([]int{0, 1, 2, 3, 4, 5, 6, 7, 8, 9, 10}).Draw(t, "specs")
 		c.Specs = perm[:4]
 		shared := make([]*regexp2.Regexp, 4)
 		for i, s := range c.Specs {
